@@ -458,3 +458,45 @@ ENTRIES += [
     M("C12-pmean-advantages", "C12", "C12.3", (RB, "        returns = advantages + self.values\n", "        advantages = advantages - lax.pmean(advantages, axis_name=\"env\")\n        returns = advantages + self.values\n")),
     M("C12-warmup-state-broadcast", "C12", "C12.2", (OFP, "                self.collect_learning_starts, in_axes=(None, None, 0, None, 0)", "                self.collect_learning_starts, in_axes=(None, None, None, None, 0)")),
 ]
+
+HUS = "lerax/env/mujoco/humanoid_standup.py"
+IDP = "lerax/env/mujoco/inverted_double_pendulum.py"
+PUS = "lerax/env/mujoco/pusher.py"
+REA = "lerax/env/mujoco/reacher.py"
+WAL = "lerax/env/mujoco/walker2d.py"
+HCH = "lerax/env/mujoco/half_cheetah.py"
+SWI = "lerax/env/mujoco/swimmer.py"
+
+ENTRIES += [
+    # ---------------------------------------------------------------- C17
+    M("C17-default-ctrl-cost", "C17", "C17.7", (ANT, "        ctrl_cost_weight: float = 0.5,", "        ctrl_cost_weight: float = 0.05,")),
+    M("C17-default-healthy-z", "C17", "C17.7", (WAL, "healthy_z_range: tuple[float, float] = (0.8, 2.0)", "healthy_z_range: tuple[float, float] = (0.7, 2.0)")),
+    M("C17-cmc-goal", "C17", "C17.1", (CMC, "        goal_position: Float[ArrayLike, \"\"] = 0.45,", "        goal_position: Float[ArrayLike, \"\"] = 0.5,")),
+    M("C17-cartpole-gravity", "C17", "C17.1", (CP, "        gravity: Float[ArrayLike, \"\"] = 9.8,", "        gravity: Float[ArrayLike, \"\"] = 9.81,")),
+    M("C17-mc-terminal-strict", "C17", "C17.2", (MC, "        return (x >= self.goal_position) & (v >= self.goal_velocity)", "        return (x > self.goal_position) & (v >= self.goal_velocity)")),
+    M("C17-cartpole-terminal-one-sided", "C17", "C17.2", (CP, "        within_x = (x >= -self.x_threshold) & (x <= self.x_threshold)", "        within_x = x <= self.x_threshold")),
+    M("C17-acrobot-terminal-threshold", "C17", ["C17.2", "C17.3"], (ACR, "            -jnp.cos(joint_angle_1) - jnp.cos(joint_angle_1 + joint_angle_2) > 1.0\n        )\n        return done_angle\n", "            -jnp.cos(joint_angle_1) - jnp.cos(joint_angle_1 + joint_angle_2) > 0.9\n        )\n        return done_angle\n")),
+    M("C17-cmc-reward-prestate", "C17", "C17.3", (CMC, "            100.0 * self.terminal(next_state, key=key).astype(float)", "            100.0 * self.terminal(state, key=key).astype(float)")),
+    M("C17-cmc-reward-scale", "C17", "C17.3", (CMC, "            100.0 * self.terminal(next_state, key=key).astype(float)", "            10.0 * self.terminal(next_state, key=key).astype(float)")),
+    M("C17-acrobot-reward-prestate", "C17", "C17.3", (ACR, "        joint_angle_1, joint_angle_2 = next_state.y[0], next_state.y[1]", "        joint_angle_1, joint_angle_2 = state.y[0], state.y[1]")),
+    M("C17-cmc-no-wall", "C17", "C17.4", (CMC, "        v = v * ((x != self.min_position) | (v > 0.0))\n", "")),
+    M("C17-mc-wall-wrong-side", "C17", "C17.4", (MC, "(x != self.min_position) | (v > 0.0)", "(x != self.max_position) | (v > 0.0)")),
+    M("C17-mc-initial-range", "C17", "C17.5", (MC, "jr.uniform(key, minval=-0.6, maxval=-0.4)", "jr.uniform(key, minval=-0.6, maxval=-0.5)")),
+    M("C17-hopper-qvel-normal", "C17", "C17.8", (HOP, "        qvel = self.init_qvel + jr.uniform(\n            qvel_key, shape=self.init_qvel.shape, minval=noise_low, maxval=noise_high\n        )", "        qvel = self.init_qvel + self.reset_noise_scale * jr.normal(\n            qvel_key, shape=self.init_qvel.shape\n        )")),
+    M("C17-no-forward", "C17", "C17.9", (ANT, "        data = mjx.forward(self.model, data)\n", "")),
+    M("C17-forward-before-replace", "C17", "C17.9", (REA, "        data = data.replace(qpos=qpos, qvel=qvel)\n        data = mjx.forward(self.model, data)\n", "        data = mjx.forward(self.model, data)\n        data = data.replace(qpos=qpos, qvel=qvel)\n")),
+    M("C17-walker-obs-noclip", "C17", "C17.10", (WAL, "        velocity = jnp.clip(data.qvel.reshape(-1), -10.0, 10.0)", "        velocity = data.qvel.reshape(-1)")),
+    M("C17-hopper-obs-skip2", ["C17", "C02"], ["C17.10", "C02.4"], (HOP, "            position = position[1:]", "            position = position[2:]")),
+    M("C17-humanoid-obs-order", "C17", "C17.10", (HUM, "                com_inertia,\n                com_velocity,\n                actuator_forces,", "                com_velocity,\n                com_inertia,\n                actuator_forces,")),
+    M("C17-ant-plus-ctrl", "C17", ["C17.11", "C17.13"], (ANT, "        return forward_reward + healthy_reward - ctrl_cost - contact_cost\n", "        return forward_reward + healthy_reward + ctrl_cost - contact_cost\n")),
+    M("C17-ant-info-ctrl-sign", "C17", ["C17.11", "C17.13"], (ANT, "            \"reward_ctrl\": -ctrl_cost,", "            \"reward_ctrl\": ctrl_cost,")),
+    M("C17-humanoid-clip-before-weight", "C17", "C17.11", (HUM, "        return jnp.clip(self.contact_cost_weight * raw_cost, min_cost, max_cost)", "        return self.contact_cost_weight * jnp.clip(raw_cost, min_cost, max_cost)")),
+    M("C17-standup-dt", "C17", "C17.11", (HUS, "    ) -> dict:\n        data = next_state.sim_state\n\n        uph_cost = self.uph_cost_weight * (data.qpos[2] / self.model.opt.timestep)", "    ) -> dict:\n        data = next_state.sim_state\n\n        uph_cost = self.uph_cost_weight * (data.qpos[2] / self.dt)")),
+    M("C17-halfcheetah-velocity-nodt", "C17", "C17.11", (HCH, "    ) -> dict:\n        x_before = state.sim_state.qpos[0]\n        x_after = next_state.sim_state.qpos[0]\n        x_velocity = (x_after - x_before) / self.dt", "    ) -> dict:\n        x_before = state.sim_state.qpos[0]\n        x_after = next_state.sim_state.qpos[0]\n        x_velocity = (x_after - x_before)")),
+    M("C17-pusher-xipos", "C17", "C17.12", (PUS, "        tips_arm = data.xpos[self.tips_arm_body_id]\n        obj = data.xpos[self.object_body_id]\n        goal = data.xpos[self.goal_body_id]\n\n        return jnp.concatenate(", "        tips_arm = data.xipos[self.tips_arm_body_id]\n        obj = data.xpos[self.object_body_id]\n        goal = data.xpos[self.goal_body_id]\n\n        return jnp.concatenate(")),
+    M("C17-idp-info-keys", "C17", "C17.13", (IDP, "            \"reward_survive\": (y > 1).astype(float) * self.healthy_reward,", "            \"alive_bonus\": (y > 1).astype(float) * self.healthy_reward,")),
+    M("C17-reward-info-disagree", "C17", ["C17.13", "C17.11"], (SWI, "        forward_reward = self.forward_reward_weight * x_velocity\n        ctrl_cost = self.ctrl_cost_weight * jnp.sum(jnp.square(action))\n\n        return forward_reward - ctrl_cost", "        forward_reward = 2 * self.forward_reward_weight * x_velocity\n        ctrl_cost = self.ctrl_cost_weight * jnp.sum(jnp.square(action))\n\n        return forward_reward - ctrl_cost"), stale_ok=True),
+    M("C17-walker-healthy-nonstrict", "C17", "C17.11", (WAL, "        healthy_z = (z > min_z) & (z < max_z)", "        healthy_z = (z >= min_z) & (z < max_z)"), stale_ok=True),
+    V("C17-v-mc-terminal-order", "C17", (MC, "        return (x >= self.goal_position) & (v >= self.goal_velocity)", "        return (self.goal_velocity <= v) & (self.goal_position <= x)")),
+    V("C17-v-cmc-wall-where", "C17", (CMC, "        v = v * ((x != self.min_position) | (v > 0.0))\n", "        v = jnp.where((x == self.min_position) & (v < 0.0), 0.0, v)\n")),
+]
